@@ -1,5 +1,6 @@
 import TextxVerif.Wire
 import TextxVerif.Peg.GapExt
+import TextxVerif.Peg.WsParam
 /-! Driver for C22 (gap extension on the Arpeggio mirror).
 
 {"op":"gapext","nodes":[…as in Drivers/Peg.lean…],"top":n,"comments":n|null,"memo":b,"skipws":b,"ws":"…",
@@ -11,6 +12,11 @@ outcome: {"ok":tree} | {"nomatch":pos} | {"err":"fuel"|"bad-model"}
 `input` = `extendGap`; `ok` = `gapExtOkB` (all side conditions of C22_partial_ws); `modes` = `modesSkipB`;
 `compat` = `tokCompatB`; `rows` = both `rowsOkB`; `rel` = the outcome on the extended input is the shifted
 original outcome (what C22_partial_ws concludes).
+
+{"op":"multi","reqs":[gapext…],"mods":[[{"flag":"noskipws"}|{"ws":"raw value"}…]…]}
+→ {"outs":[…],"mods":[{"skipws":b|null,"ws":"…"|null} | {"rejected":true}…]}
+`mods`: the rule modifiers of one rule as written in the grammar → `Peg.ruleMods` (mirror of
+`visit_rule_param` / `visit_rule_params`): the whitespace mode the compiled rule must carry.
 -/
 open Lean Wire Peg
 
@@ -97,13 +103,32 @@ def handle1 (j : Json) : Json :=
     r.getD badOp
   | _ => badOp
 
-/-- {"op":"multi","reqs":[gapext requests]} → {"outs":[…]} -/
+def parseParamSrc (j : Json) : Option ParamSrc :=
+  match getStr? j "flag", getStr? j "ws" with
+  | some f, none => some (.flag f)
+  | none, some raw => some (.ws raw.toList)
+  | _, _ => none
+
+def modsToJson : Option RuleMods → Json
+  | none => Json.mkObj [("rejected", Json.bool true)]
+  | some m => Json.mkObj [
+      ("skipws", match m.skipws with | some b => Json.bool b | none => Json.null),
+      ("ws", match m.ws with | some w => Json.str (String.ofList w) | none => Json.null)]
+
+def handleMods (j : Json) : Option Json := do
+  let ps ← (← asArr? j).mapM parseParamSrc
+  pure (modsToJson (ruleMods ps.toList {}))
+
+/-- {"op":"multi","reqs":[gapext requests],"mods":[…]} → {"outs":[…],"mods":[…]} -/
 def handle (j : Json) : Json :=
   match getStr? j "op" with
   | some "multi" =>
-    match getArr? j "reqs" with
-    | some reqs => Json.mkObj [("outs", Json.arr (reqs.map handle1))]
-    | none => badOp
+    match getArr? j "reqs", getArr? j "mods" with
+    | some reqs, some mods =>
+      match mods.mapM handleMods with
+      | some ms => Json.mkObj [("outs", Json.arr (reqs.map handle1)), ("mods", Json.arr ms)]
+      | none => badOp
+    | _, _ => badOp
   | _ => handle1 j
 
 def main : IO Unit := serve handle
